@@ -251,12 +251,12 @@ Definition known_D02 (c : rcase) : bool :=
                                                (fst (ispace c x))))) [SF; SG; SM].
 Definition moved (c : rcase) (x : sp) (id : N) : bool :=
   negb (optN_eqb (lookup (snd (ispace c x)) id) (Some id)).
-(* D03 / D05: a copied (never re-indexed) reference whose target moves or is deleted *)
+(* D05 (and formerly D03, repaired: global exports are re-indexed now): a copied (never re-indexed) reference
+   whose target moves or is deleted *)
 Definition known_copied (k : rk) (x : sp) (c : rcase) : bool :=
   existsb (fun r => match rs_k r, rk_code k with
                     | k', kc => N.eqb (rk_code k') kc && sp_eqb (rs_sp r) x && moved c x (rs_id r)
                     end) (sites c).
-Definition known_D03 := known_copied KExport SG.
 Definition known_D05 := known_copied KElemExpr SF.
 (* D06: an import added or converted after parsing and then deleted stays in the index space *)
 Definition known_D06 (c : rcase) : bool :=
@@ -297,25 +297,25 @@ Definition binds_ok (x : sp) (c : rcase) : bool := sites_bound c x && valid_ok c
 
 Definition verdict06 (c : rcase) : Util.verdict :=
   (agree c, in_domain c && has_site c SF, binds_ok SF c && live_exact c SF,
-   cls c [K 2 known_D02; K 5 known_D05; K 6 known_D06; K 7 known_D07; K 26 known_D26; K 3 known_D03; K 24 known_D24]).
+   cls c [K 2 known_D02; K 5 known_D05; K 6 known_D06; K 7 known_D07; K 26 known_D26; K 24 known_D24]).
 Definition verdict07 (c : rcase) : Util.verdict :=
   (agree c, in_domain c && has_site c SG, binds_ok SG c && live_exact c SG,
-   cls c [K 2 known_D02; K 3 known_D03; K 5 known_D05; K 6 known_D06; K 24 known_D24; K 26 known_D26; K 7 known_D07]).
+   cls c [K 2 known_D02; K 5 known_D05; K 6 known_D06; K 24 known_D24; K 26 known_D26; K 7 known_D07]).
 Definition verdict08 (c : rcase) : Util.verdict :=
   (agree c, in_domain c && has_site c SM, binds_ok SM c && live_exact c SM,
-   cls c [K 2 known_D02; K 3 known_D03; K 5 known_D05; K 6 known_D06; K 24 known_D24; K 26 known_D26; K 7 known_D07]).
+   cls c [K 2 known_D02; K 5 known_D05; K 6 known_D06; K 24 known_D24; K 26 known_D26; K 7 known_D07]).
 Definition is_delete o := match o with Delete _ _ | DeleteExport _ => true | _ => false end.
 Definition verdict09 (c : rcase) : Util.verdict :=
   (agree c, in_domain c && hist_has c is_delete,
    forallb (fun x => sites_bound c x && live_exact c x) [SF; SG; SM] && valid_ok c && negb (ss_coll (spec_final c)),
-   cls c [K 2 known_D02; K 3 known_D03; K 5 known_D05; K 6 known_D06; K 24 known_D24; K 26 known_D26; K 7 known_D07]).
+   cls c [K 2 known_D02; K 5 known_D05; K 6 known_D06; K 24 known_D24; K 26 known_D26; K 7 known_D07]).
 Definition verdict10 (c : rcase) : Util.verdict :=
   (agree c, in_domain c && hist_has c is_i2l, binds_ok SF c && live_exact c SF,
-   cls c [K 2 known_D02; K 5 known_D05; K 6 known_D06; K 7 known_D07; K 26 known_D26; K 3 known_D03; K 24 known_D24]).
+   cls c [K 2 known_D02; K 5 known_D05; K 6 known_D06; K 7 known_D07; K 26 known_D26; K 24 known_D24]).
 Definition is_l2i o := match o with LocalToImport _ _ => true | _ => false end.
 Definition verdict11 (c : rcase) : Util.verdict :=
   (agree c, in_domain c && hist_has c is_l2i, binds_ok SF c && live_exact c SF,
-   cls c [K 2 known_D02; K 5 known_D05; K 6 known_D06; K 7 known_D07; K 26 known_D26; K 3 known_D03; K 24 known_D24]).
+   cls c [K 2 known_D02; K 5 known_D05; K 6 known_D06; K 7 known_D07; K 26 known_D26; K 24 known_D24]).
 Definition verdict05 (c : rcase) : Util.verdict :=
   (agree c, negb (o_api_panic c) && encoded c, o_same2 c, cls c [K 1 known_D01]).
 
